@@ -1,4 +1,6 @@
 """C07 — fetching is idempotent and insensitive to complete copies of the master."""
+import random
+
 from common import freephil, enc
 from props import _fetch
 
@@ -31,6 +33,17 @@ def same(a, b):
     return None
 
 
+def lone_backslash_last(o):
+    """some definition's last word is a quoted word that is exactly one backslash"""
+    for c in o.objects:
+        if c.is_definition:
+            if c.words and c.words[-1].quote_token is not None and c.words[-1].value == "\\":
+                return True
+        elif lone_backslash_last(c):
+            return True
+    return False
+
+
 def check(m, ss):
     """None or (description); raises nothing"""
     try:
@@ -47,6 +60,11 @@ def check(m, ss):
             r = same(w2, w)
             if r:
                 return "cycle %d of print/parse/fetch != W: %s" % (k + 1, r)
+        # "its printed text" at every level of detail the printer offers (a parameter file saved with its annotations)
+        for lvl in (1, 2):
+            r = same(m.fetch(source=freephil.parse(input_string=w.as_str(attributes_level=lvl))), w)
+            if r:
+                return "print(attributes_level=%d)/parse/fetch != W: %s" % (lvl, r)
         r = same(m.fetch(sources=[m] + ss), w)
         if r:
             return "M.fetch([M]+S) != W: " + r
@@ -65,17 +83,35 @@ def run(ctx):
     rng = ctx.rng
     n = ctx.scale(1500, 30000, 6000)
     cases, reqs, impls = [], [], []
-    for i in range(n):
+    # every fourth case belongs to a second stream (own generator state, so the first stream is the same with and without it):
+    # the same masters / sources with a share of the text-typed values written with lexical escapes (backslashes and escaped
+    # quotes inside quoted words of every quote style, a quoted word that is exactly one backslash, continuation lines) --
+    # values whose printed text has to be escaped correctly for "W re-parsed from its printed text" to give W
+    rng_esc = random.Random(ctx.seed * 7919 + 4242)
+    done = {False: 0, True: 0}
+    for i in range(n + n // 3):
         if ctx.time_left() < 30:
             ctx.notes.append("stopped early on time budget")
             break
-        nested = i % 3 == 2
-        tree, mt, srcs = _fetch.gen(rng, nested=nested)
-        m = freephil.parse(input_string=mt)
-        ss = [freephil.parse(input_string=s) for s in srcs]
+        esc = i % 4 == 3
+        nested = done[esc] % 3 == 2
+        done[esc] += 1
+        tree, mt, srcs = _fetch.gen(rng_esc if esc else rng, nested=nested, escapes=0.5 if esc else 0)
+        try:
+            m = freephil.parse(input_string=mt)
+            ss = [freephil.parse(input_string=s) for s in srcs]
+        except BaseException as e:
+            # every generated text is well-formed; a tree that rejects one cannot be examined for C07 on that input (counted,
+            # visible in the evidence; parsing itself is C01 / C16)
+            ctx.count("rejected_by_parse")
+            continue
         ctx.case((mt, tuple(srcs)), nontrivial=bool(srcs))
         isnested = _fetch.has_nested_multiple(tree)
         ctx.count("nested_multiples" if isnested else "plain")
+        if esc:
+            ctx.count("escapes_stream")
+            if any(lone_backslash_last(s) for s in ss + [m]):
+                ctx.count("escapes_stream_quoted_backslash_ends_value")
         f = check(m, ss)
         case = {"master": mt, "sources": srcs}
         # correspondence on the second-generation fetch: sources = [printed W]
@@ -94,6 +130,58 @@ def run(ctx):
             ctx.sample({"master": mt, "sources": srcs})
     if reqs and ctx.mode != "impl-only":
         ctx.corr("fetch", [c[0] for c in cases], reqs, impls)
+
+
+def _fails_as(mt, srcs, head):
+    try:
+        m = freephil.parse(input_string=mt)
+        ss = [freephil.parse(input_string=x) for x in srcs]
+    except BaseException:
+        return False
+    r = check(m, ss)
+    return r is not None and r.split(":")[0] == head
+
+
+def _less_lines(text, keep):
+    """greedy removal of runs of lines (8, 4, 2, 1) while keep(text) stays true"""
+    lines = text.splitlines(True)
+    for size in (8, 4, 2, 1):
+        i = 0
+        while i < len(lines):
+            cand = lines[:i] + lines[i + size:]
+            if len(cand) < len(lines) and keep("".join(cand)):
+                lines = cand
+            else:
+                i += 1
+    return "".join(lines)
+
+
+def shrink(f):
+    """a smaller input failing the same clause: fewer sources, fewer source lines, fewer master lines (every candidate is
+    re-parsed and re-checked on the implementation, so the result is a genuine failing input or the original)"""
+    import time
+    t_end = time.time() + 10
+    mt, srcs = f["case"]["master"], list(f["case"]["sources"])
+    head = f["what"].split(":")[0]
+    if not _fails_as(mt, srcs, head):
+        return f
+
+    def ok(m_, s_):
+        return time.time() < t_end and _fails_as(m_, s_, head)
+    i = 0
+    while i < len(srcs):
+        if ok(mt, srcs[:i] + srcs[i + 1:]):
+            srcs = srcs[:i] + srcs[i + 1:]
+        else:
+            i += 1
+    for i in range(len(srcs)):
+        srcs[i] = _less_lines(srcs[i], lambda t: ok(mt, srcs[:i] + [t] + srcs[i + 1:]))
+    mt = _less_lines(mt, lambda t: ok(t, srcs))
+    g = dict(f)
+    g["case"] = {"master": mt, "sources": srcs}
+    g["what"] = f["what"] + " [input shrunk; generated input in 'original_case']"
+    g["original_case"] = f["case"]
+    return g
 
 
 def finding_still_fails(f):
